@@ -16,10 +16,10 @@ func C16(c *Ctx) int {
 	dir := c.sub("values")
 	tableFile := filepath.Join(dir, "table.ndjson")
 	behFile := filepath.Join(dir, "beh.ndjson")
+	// (24 operations per step x 3 ways the instances come into being: 41 472 behaviours of three
+	// steps -- the quick tier replays every 16th, the thorough tier all of them; four steps would
+	// be a million behaviours held in TLC's export register)
 	maxOps := 3
-	if !c.Quick() {
-		maxOps = 4
-	}
 	cfg := fmt.Sprintf("SPECIFICATION Spec\nCONSTANTS\n  OutTable = %q\n  OutBehaviours = %q\n  MaxOps = %d\nINVARIANT TableTotal\nPROPERTIES Isolation SnapshotIsAValue\nCONSTRAINT Record\nPOSTCONDITION Dump\nCHECK_DEADLOCK FALSE\n", tableFile, behFile, maxOps)
 	res, err := RunTLC(dir, "ValueLayer", cfg, TLCOpts{Workers: 1, Timeout: 20 * time.Minute})
 	if err != nil {
